@@ -138,7 +138,7 @@ def tie_indicator(obj, ovo, eps, P, A):
         else:
             diff = Pc - pi
         a = np.abs(diff)
-        return bool(np.any((a < 1e-13) & (a > 0))) or bool(np.any(a == 0) and not _exact_case(P))
+        return bool(np.any((a < 1e-13) & (a > 0))) or bool(np.any(a == 0) and not _exact_case(Pc))
     if obj == "mmd":
         nk = A / n ** 2
         alpha = Pc / pi
@@ -148,12 +148,11 @@ def tie_indicator(obj, ovo, eps, P, A):
             dg = np.diag(om).reshape(1, -1)
             arg = -2 * om + dg + dg.T
             arg = arg[~np.eye(K, dtype=bool)] if K > 1 else np.zeros(0)
-            scale = np.abs(om).max() if om.size else 0.0
         else:
             a, b, c = (alpha * gamma).sum(0), gamma.sum(0), nk.sum()
             arg = a + c - 2 * b
-            scale = max(np.abs(a).max(), abs(c), np.abs(b).max())
-        return bool(np.any(np.abs(arg) <= 1e-9 * (scale + 1e-300))) and not _exact_case(P, A)
+        scale = float(np.abs(nk).sum() * np.abs(alpha).max() ** 2)     # magnitude of the terms that cancel
+        return bool(np.any(np.abs(arg) <= 1e-9 * (scale + 1e-300))) and not _exact_case(Pc, A)
     return False
 
 
@@ -359,6 +358,28 @@ def gen_data(rng, fam, big=False):
     return np.ascontiguousarray(X, dtype=float), K, bs, scale
 
 
+def krim_sgd_divergence(est, X):
+    """Independent diagnosis of the recorded finding F26 (key KernelRIM:sgd-divergence).  KernelRIM's SGD step on the penalty
+    reg*tr(W'KW) is W <- (I - 2*lr*reg*K) W plus the bounded GEMINI term: it is expansive iff lr*reg*lambda_max(K) > 1.  The
+    non-finite parameters are attributed to it only when that criterion holds for the training kernel AND the same fit without
+    the penalty (reg=0) stays finite; anything else keeps its specific key."""
+    from sklearn.base import clone
+    if est.solver != "sgd":
+        return False
+    K = np.asarray(est.training_kernel_, dtype=float)
+    if not finite(K):
+        return False
+    lam = float(np.linalg.eigvalsh((K + K.T) / 2).max())
+    if not (est.learning_rate * est.reg * lam > 1):
+        return False
+    twin = clone(est).set_params(reg=0.0)
+    twin.fit(X)
+    return finite(twin._get_weights()[0]) and finite(twin._get_weights()[1])
+
+
+KEY_F26 = "KernelRIM:sgd-divergence"
+
+
 def check_fitted(chk, key, est, name, X, y, replay, obj=None):
     """L3: every learned parameter, probability and score finite; L2: score() = extracted model GEMINI on predict_proba."""
     bad = False
@@ -383,9 +404,12 @@ def check_fitted(chk, key, est, name, X, y, replay, obj=None):
     ws = est._get_weights()
     for j, w in enumerate(ws):
         if not finite(w):
-            chk.fail(key + ":params-nonfinite", f"learned parameter #{j} has non-finite entries {short(np.asarray(w)[~np.isfinite(w)])}", replay, layer="L3")
-            bad = True
-            break
+            k2 = key + ":params-nonfinite"
+            if name == "KernelRIM" and krim_sgd_divergence(est, X):
+                k2 = KEY_F26
+                chk.dist["KernelRIM sgd divergence (expansive penalty step, finite with reg=0)"] += 1
+            chk.fail(k2, f"learned parameter #{j} has non-finite entries {short(np.asarray(w)[~np.isfinite(w)])}", replay, layer="L3")
+            return False        # probabilities and score computed from these parameters are consequences, not separate failures
     try:
         Pp = np.asarray(est.predict_proba(X), dtype=float)
         sc = est.score(X, y)
@@ -405,7 +429,9 @@ def check_fitted(chk, key, est, name, X, y, replay, obj=None):
         g = est.get_gemini()
         o, ovo = gemlib.obj_of(g)
         A = g.compute_affinity(X, y)
-        if o != "ws" or len(X) <= 12:
+        # the extracted model recomputes shared sub-terms (no memoisation): keep its cost bounded
+        cost = len(X) ** 5 * Pp.shape[1] ** 2 if (o == "mmd" and ovo) else len(X) ** 3 * Pp.shape[1]
+        if cost <= 2e7 and (o != "ws" or len(X) <= 12):
             s_impl, _, calls = gemlib.run_impl(g, Pp, A, want_grad=(o == "ws"))
             ms, mg = gemlib.run_model(chk, o, ovo, g.epsilon, Pp, None if A is None else np.asarray(A, dtype=float), calls)
             if not np.isfinite(ms) or not finite(mg):
@@ -437,7 +463,8 @@ def build_estimator(rng, name, K, bs, max_iter, gem_index):
     if name == "Kauri":
         kw = dict(max_clusters=K, random_state=kw["random_state"], kernel=str(rng.choice(["linear", "rbf", "laplacian"])))
     est = impl.make(name, **kw)
-    desc.update({k: v for k, v in kw.items() if k in est.get_params() and k != "gemini"})
+    desc.update({k: v for k, v in kw.items() if k != "gemini"})
+    desc = {k: v for k, v in desc.items() if k in est.get_params()}
     return est, desc
 
 
@@ -468,6 +495,53 @@ def stream_fit(chk, i, rng):
                     "one_cluster": bool(len(set(np.asarray(est.labels_).tolist())) == 1)})
     if len(set(np.asarray(est.labels_).tolist())) == 1:
         chk.dist["result:single-cluster(finite)"] += 1
+
+
+# ================================================================== stream 4b: long trainings on badly scaled data
+def stream_long(chk, i, rng):
+    """Many optimiser steps (divergence needs time to overflow): every estimator, both solvers, default-like step sizes."""
+    names = list(impl.GRADIENT_ESTIMATORS)
+    name = names[i % len(names)]
+    j = i // len(names)
+    fam = ["scale=1000", "scale=1e-3", "scale=1000", "dup-rows"][j % 4]
+    solver = ["sgd", "adam"][(j // 2) % 2] if j % 4 != 2 else "sgd"
+    X, K, bs, scale = gen_data(rng, fam)
+    if fam == "dup-rows":
+        X, scale = X / scale * 1000.0, 1000.0
+    max_iter = 100 if chk.tier == "quick" else 400
+    est, desc = build_estimator(rng, name, K, None if j % 4 != 2 else 1, max_iter, i)
+    est.set_params(solver=solver, learning_rate=float([1e-3, 1e-2][j % 2]))
+    desc.update(solver=solver, learning_rate=est.learning_rate, max_iter=max_iter, batch_size=est.get_params().get("batch_size"))
+    key = f"{name}:{fam}:long"
+    replay = {"estimator": name, "family": fam, "scale": scale, "params": desc, "X": X.tolist()}
+    try:
+        est.fit(X)
+    except Exception as e:  # noqa
+        chk.fail(key + f":fit-raises:{type(e).__name__}", f"fit raised {type(e).__name__}: {e} with {desc}", replay, layer="L3")
+        chk.count(None)
+        return
+    check_fitted(chk, key, est, name, X, None, replay)
+    chk.traces += 1
+    chk.dist[f"long:{fam}:{solver}"] += 1
+    chk.count(("long", name, fam, solver, est.learning_rate, X.shape))
+
+
+# ================================================================== stream 4c: the recorded KernelRIM divergence, deterministic
+def stream_krim(chk, i, rng):
+    """Case 0: the minimal reproduction of F26 (default KernelRIM but solver='sgd', features x1000, 100 epochs): a repair makes the
+    KNOWN-FINDING line disappear.  Cases 1-3: the same data with adam / with the rbf base kernel / unscaled with sgd must be finite."""
+    X = np.random.default_rng(0).normal(size=(20, 2))
+    cfg = [dict(solver="sgd", scale=1000.0), dict(solver="adam", scale=1000.0), dict(solver="sgd", scale=1000.0, base_kernel="rbf"),
+           dict(solver="sgd", scale=1.0)][i % 4]
+    scale = cfg.pop("scale")
+    est = impl.KernelRIM(n_clusters=3, max_iter=100, random_state=0, **cfg)
+    Xs = X * scale
+    replay = {"estimator": "KernelRIM", "family": f"scale={scale:g}", "params": dict(cfg, n_clusters=3, max_iter=100, random_state=0),
+              "X": "np.random.default_rng(0).normal(size=(20, 2)) * %g" % scale}
+    est.fit(Xs)
+    check_fitted(chk, f"KernelRIM:scale={scale:g}:dedicated", est, "KernelRIM", Xs, None, replay)
+    chk.traces += 1
+    chk.count(("krim", i % 4))
 
 
 # ================================================================== stream 5: regularisation paths of the sparse models
@@ -613,12 +687,14 @@ def stream_kauri(chk, i, rng):
 
 
 # ================================================================== main
-STREAMS = {"gemini": (stream_gemini, 26 * len(P_FAMILIES) * 2, 26 * len(P_FAMILIES) * 40),
+STREAMS = {"gemini": (stream_gemini, 26 * len(P_FAMILIES) * 4, 26 * len(P_FAMILIES) * 40),
            "softmax": (stream_softmax, 70, 1400),
            "prox": (stream_prox, 140, 2800),
-           "fit": (stream_fit, 18 * len(DATA_FAMILIES) * 2, 18 * len(DATA_FAMILIES) * 26),
+           "fit": (stream_fit, 18 * len(DATA_FAMILIES) * 3, 18 * len(DATA_FAMILIES) * 12),
+           "krim": (stream_krim, 4, 4),
+           "long": (stream_long, 17 * 4, 17 * 16),
            "path": (stream_path, 5 * len(DATA_FAMILIES), 5 * len(DATA_FAMILIES) * 10),
-           "kauri": (stream_kauri, 13 * 6, 13 * 80)}
+           "kauri": (stream_kauri, 13 * 12, 13 * 80)}
 
 RULE = ("stream gemini: all 13 registry names, the 6 classes with both flags and MI on saturated predictions (exactly one-hot, one cluster only, uniform, "
         "entries exactly eps / 1-eps and one ulp around them, K=1, n=1, mixed rows; eps in {1e-12..0.49}) with degenerate kernels/distances (zero, constant, duplicates, "
@@ -626,6 +702,7 @@ RULE = ("stream gemini: all 13 registry names, the 6 classes with both flags and
         "stream softmax: sklearn softmax vs extracted softmax_row on logits up to 1e308 (exp arguments <= 0, denominator in [1,K]). stream prox: linear_prox_grad / group wrapper / "
         "hier-prox on zero rows, alpha=0, tiny and huge rows vs extracted linear_prox_row. stream fit: all 18 estimators x data families (scale 1e-3/1/1000, constant, zero and duplicated "
         "columns, duplicated and identical samples, K=n, K=1, batch_size=1, one feature) x GEMINIs: fit, _get_weights, predict_proba, score finite, score = model GEMINI of predict_proba. "
+        "stream krim: the deterministic reproduction of the recorded KernelRIM sgd divergence and its three finite neighbours. stream long: the 17 gradient estimators trained for 100 (thorough 400) epochs with sgd and adam on x1000 / x1e-3 / duplicated data (divergence needs many steps to overflow). "
         "stream path: the 5 sparse models' path() on the same families: every history value and weight finite. stream kauri: compiled module and desugared .pyx on duplicated/identical samples, "
         "constant features, indefinite/zero precomputed kernels: every recorded gain, threshold and score finite. non-trivial = the degenerate feature is present "
         "(saturated or uniform P, |logit|>700, zero row, a completed fit / a path with >= 1 step / a Kauri fit with >= 1 split search)")
